@@ -65,7 +65,56 @@ def run(ck):
                   len(ent["rejecting"]) >= 1,
                   "%d bit tests on an input-read integer; %d rejecting comparisons on its bits (undefined bits must be refused)"
                   % (len(ent["tests"]), len(ent["rejecting"])), "%s:%d" % (f.b["file"], ent["line"]))
+    # presence bits: a field is read exactly on the branch taken when its bit is SET (the writer sets the bit when the field
+    # is present); a flipped test reads the field when it is absent
+    npb = 0
+    for ty, b in sorted(rs.items()):
+        f = Fn(b)
+        bm = sweeps.bitmap_locals(f)
+        if not any(len(e["tests"]) >= 2 for e in bm.values()):
+            continue
+        for cx in rules.comparisons(f):
+            if cx["kind"] != "bin" or cx["op"] not in ("Eq", "Ne"):
+                continue
+            kb = op_const(cx["b"])
+            if kb is None or const_int(kb) != 0:
+                continue
+            pa = op_place(cx["a"])
+            if pa is None:
+                continue
+            mask = None
+            for (b2, si, it) in f.defs().get(pa[0], []):
+                if si != "t" and it["rv"].get("k") == "bin" and it["rv"]["op"] == "BitAnd":
+                    r0 = rules.root_local(f, it["rv"]["a"])
+                    if r0 is not None and not r0[1] and r0[0] in bm and len(bm[r0[0]]["tests"]) >= 2:
+                        mo = f.origins(it["rv"]["b"])
+                        lits = [a[1] for a in mo if a[0] == "lit"]
+                        mask = lits
+            if mask is None:
+                continue
+            br = rules.cmp_branches(f, cx)
+            if br is None:
+                continue
+            sb, tt, ft = br
+            if tt in f.reject_region() or ft in f.reject_region():
+                continue        # the undefined-bits refusal, decided above
+            set_t, clr_t = (tt, ft) if cx["op"] == "Ne" else (ft, tt)
+            rd = lambda region: [bi for (bi, t) in f.calls(sweeps.READ) if bi in region] + [bi for (bi, t) in f.calls(r"serialize::Get::get$|Deserial::deserial$|deserial_[a-z_]+$") if bi in region]
+            reg_set = sym.dominated(f, set_t)
+            reg_clr = sym.dominated(f, clr_t) - reg_set if clr_t != set_t else set()
+            if not rd(reg_set) and not rd(reg_clr):
+                continue        # not a presence bit (e.g. the undefined-bits test)
+            npb += 1
+            ok = bool(rd(reg_set)) and not [x for x in rd(reg_clr) if x not in reg_set and not f.dominates(set_t, x)]
+            # blocks after the join are dominated by neither branch, so only the branch-private blocks count
+            ck.ob("BITMAP", f.path, "presence-bit-polarity@bb%d" % cx["bb"], ok,
+                  "the field is read on the branch taken when the bit is set" if ok else "the field is read on the branch taken when the bit is CLEAR (test `%s 0` flipped)" % cx["op"], f.loc(cx["bb"]))
+    ck.floor("BITMAP", "presence-bit tests", npb, 12)
     ck.floor("BITMAP", "optional-field bitmaps", nb, 3)
+
+    # ---- buffers a decoder allocates are filled from the input
+    zfns = [Fn(b) for p0 in sorted(c.paths()) if re.search(r"[Dd]eserial|::read_|::get_|from_bytes|parse", p0) for b in c.get_all(p0)]
+    zero_buffer_sweep(ck, zfns, "DEFUSE", 25)
 
     # ---- exact consumption where a length is declared
     inst = [
